@@ -184,6 +184,14 @@ func runSuite(e *env) {
 	}
 	if failed == 0 {
 		e.report("C19", "violation-not-flagged", "faulty server ("+sr.fault+") passed every test written for that requirement", fmt.Sprintf("designated tests that ran and passed: %v", names), false)
+	} else if failed < ran && strictFaults[sr.fault] {
+		var passed []string
+		for _, n := range names {
+			if sr.results[n] {
+				passed = append(passed, n)
+			}
+		}
+		e.report("C19", "violation-not-flagged", "faulty server ("+sr.fault+") passed a test that asks for exactly the withheld data", fmt.Sprintf("designated tests in which the fault manifested and which passed: %v", passed), false)
 	}
 	e.probe("fault " + sr.fault + ": flagged")
 }
